@@ -3,7 +3,9 @@ module verifharness
 go 1.26.8
 
 require (
+	github.com/cenkalti/backoff/v4 v4.2.1
 	github.com/dapr/kit v0.0.0
+	github.com/fsnotify/fsnotify v1.7.0
 	github.com/lestrrat-go/jwx/v2 v2.0.21
 	golang.org/x/crypto v0.24.0
 	k8s.io/utils v0.0.0-20230726121419-3b25d923346b
@@ -11,7 +13,6 @@ require (
 
 require (
 	github.com/alphadose/haxmap v1.3.1 // indirect
-	github.com/fsnotify/fsnotify v1.7.0 // indirect
 	github.com/gogo/protobuf v1.3.2 // indirect
 	github.com/lestrrat-go/blackmagic v1.0.2 // indirect
 	github.com/lestrrat-go/httpcc v1.0.1 // indirect
